@@ -3,7 +3,7 @@
 #  (a) the repository's suite has no new failures with the change,
 #  (b) the demonstration fails with the change, (c) passes without it.
 # usage: validate_seed.sh <PID> [<worktree>] ; results in /tmp/seeds/<PID>/validation.txt
-PID=$1; WT=${2:-/tmp/wt/$PID}; SD=/tmp/seeds/$PID
+PID=$1; WT=${2:-/tmp/wt/$PID}; SD=${SEEDROOT:-/tmp/seeds}/$PID
 OUT=$SD/validation.txt; : > $OUT
 cd $WT || exit 2
 git -C $WT diff -- kopf > $SD/patch.check.diff
